@@ -34,6 +34,28 @@ CHECKS = {
          "Exhaustive over 8192 identity patterns and the 16384 FS x DR x IIS x IDS tuples, CA x 162 overlays, every decoder x DF 0..31.",
          "Description strings are checked for shape only (text or None); trusts TLC and the field positions of Annex 10 as transcribed.",
          "DESIGN.md section 5 C08"),
+ "C09": ("TLA+ spec of the TC19 and TC5-8 ME layouts (encoder as width lists, decoder as bit positions, integer sqrt, track as an "
+         "integer relation, movement table in 1/8 kt); TLC checks layout agreement and table monotonicity; field products replayed "
+         "into velocity()/airborne_velocity()/speed_heading()/altitude_diff()/surface_velocity() and validated by TLC",
+         "Boundary x boundary and full-range sweeps of every TC19 field for all 8 subtypes, all 512x2 vertical rates, 128x2 differences, "
+         "all surface movement x status x track cells; random ME contents and recorded traffic.",
+         "Track angle is judged by an integer cross/dot-product relation (tolerance ~0.003 deg); speed truncation follows the library "
+         "(named deviation SpeedTruncated); reserved subtypes 0,5,6,7 judged for shape only.",
+         "DESIGN.md section 5 C09"),
+ "C10": ("TLA+ spec of the Annex 10 six-bit alphabet and identification layout; TLC checks every code at every position; "
+         "single-position, uniform and seeded strings replayed into callsign()/category()/cs20() and validated by TLC",
+         "Every 6-bit code at every character position on five backgrounds (independence), all TC 1-4 x category x DF17/18 and BDS 2,0 "
+         "carriers, seeded strings.",
+         "37^8 strings are sampled, not enumerated; independence is established per position.",
+         "DESIGN.md section 5 C10"),
+ "C13": ("TLA+ spec of TC28/TC29(v1,v2)/TC31 fields and of the quality-indicator look-up domains; every field value x subtype "
+         "replayed into the 30 decoders and validated by TLC, incl. a TLC monotonicity check of every uncertainty table as observed "
+         "through the API",
+         "Exhaustive per field (<= 2^12 values) x 4 subtypes with random other bits; all TC x supplement combinations for the look-ups; "
+         "version argument in {None,0,1,2}.",
+         "Numeric radii of the uncertainty tables are not pinned (the property does not state them), only totality and monotonicity; "
+         "TC29 subtype-0 horizontal mode follows the library's bit position (HorizontalModeAt26).",
+         "DESIGN.md section 5 C13"),
 }
 
 PENDING = {}
